@@ -135,7 +135,7 @@ Lemma do_bg_tls e c : c_tls (snd (do_bg e c)) = c_tls c.
 Proof.
   unfold do_bg. destruct (negb (c_bg c)); [reflexivity|].
   destruct (c_t3 c); try reflexivity.
-  destruct (h3_dial e c) as [h d]. destruct h; reflexivity.
+  destruct (h3_dial e c) as [h d]. destruct h as [p|er]; [reflexivity|]. destruct er; reflexivity.
 Qed.
 
 Lemma step_tls g e c o : c_tls (snd (step_gen g e c o)) = cfg_op o (c_tls c).
@@ -233,6 +233,7 @@ Proof.
     + destruct er; intros H; inversion H; (split; [repeat constructor; try exact G|]);
         try (intros X; contradiction); intros _; (split; [intros v Hv; discriminate | try discriminate]).
       intros _. apply B. reflexivity.
+  - intros H; inversion H. split; [constructor | intros X; contradiction].
   - intros H; inversion H. split; [constructor | intros X; contradiction].
   - intros H; inversion H. split; [constructor | intros X; contradiction].
 Qed.
@@ -340,6 +341,7 @@ Proof.
     + destruct er; intros H; inversion H; right; eexists; reflexivity.
   - intros H; inversion H; left; reflexivity.
   - intros H; inversion H; right; eexists; reflexivity.
+  - intros H; inversion H; right; eexists; reflexivity.
 Qed.
 
 Lemma rt_h3_v3_needs_listener oc e c r :
@@ -350,6 +352,7 @@ Proof.
   - destruct oc; [discriminate|]. unfold h3_dial. destruct (s_h3 (e_srv e)); [intros; right; reflexivity|].
     intros H; inversion H; discriminate.
   - intros; left; reflexivity.
+  - intros H; inversion H; discriminate.
   - intros H; inversion H; discriminate.
 Qed.
 
@@ -448,6 +451,7 @@ Proof.
     + intros H; inversion H; cbn. split; auto. discriminate.
   - intros H; inversion H; cbn; rewrite T; auto.
   - intros H; inversion H; cbn. split; auto. discriminate.
+  - intros H I3 I2; inversion H; cbn. rewrite T. split; [discriminate | exact I2].
 Qed.
 
 Lemma handshake_ok_mem protos cfg s p : handshake protos cfg s = HsOk (Some p) -> mem_bytes p protos = true.
@@ -570,10 +574,11 @@ Proof.
   unfold do_bg, inv3, inv2. intros I3 I2. destruct (negb (c_bg c)); [auto|].
   destruct (c_t3 c) eqn:T.
   - unfold h3_dial. destruct (s_h3 (e_srv e)) eqn:S.
-    + destruct (handshake _ _ _); cbn; split; auto; discriminate.
+    + destruct (handshake _ _ _) as [p|er]; [cbn; split; auto|]. destruct er; cbn; split; auto; discriminate.
     + cbn. split; auto. discriminate.
   - cbn. rewrite T. auto.
   - cbn. split; auto. discriminate.
+  - cbn. rewrite T. split; [discriminate | exact I2].
 Qed.
 
 Lemma step_inv g e c o :
